@@ -84,6 +84,7 @@ package gts
 //@   ensures del_gone: n < 0 && i <= ranged.Start && ranged.End <= i - n ==> is(out, Between) && int(out.(Between)) == i
 //@   ensures del_kind: n < 0 && !(i <= ranged.Start && ranged.End <= i - n) ==> is(out, Ranged) &&
 //@      out.(Ranged).Start < out.(Ranged).End &&
+//@      out.(Ranged).Start == ite(ranged.Start <= i, ranged.Start, max(i, ranged.Start + n)) && out.(Ranged).End == ite(ranged.End <= i, ranged.End, max(i, ranged.End + n)) &&
 //@      (out.(Ranged).Partial.Partial5 <==> (ranged.Partial.Partial5 || (i <= ranged.Start && ranged.Start < i - n))) &&
 //@      (out.(Ranged).Partial.Partial3 <==> (ranged.Partial.Partial3 || (i <= ranged.End - 1 && ranged.End - 1 < i - n)))
 //@   assigns nothing
@@ -108,6 +109,7 @@ package gts
 //@   (forall x: cov(out, x) <==> cov(r, ite(x < i, x, x - n))) &&
 //@   (i <= r.Start && r.End <= i - n ==> is(out, Between) && int(out.(Between)) == i) &&
 //@   (!(i <= r.Start && r.End <= i - n) ==> is(out, Ranged) && out.(Ranged).Start < out.(Ranged).End &&
+//@      out.(Ranged).Start == ite(r.Start <= i, r.Start, max(i, r.Start + n)) && out.(Ranged).End == ite(r.End <= i, r.End, max(i, r.End + n)) &&
 //@      (out.(Ranged).Partial.Partial5 <==> (r.Partial.Partial5 || (i <= r.Start && r.Start < i - n))) &&
 //@      (out.(Ranged).Partial.Partial3 <==> (r.Partial.Partial3 || (i <= r.End - 1 && r.End - 1 < i - n))))
 
@@ -831,8 +833,8 @@ package gts
 //@   ensures !isnil(out) && len(bytesOf(out)) == end - start && fresh(bytesOf(out))
 //@   ensures window: forall k in 0..end-start: bytesOf(out)[k] == old(bytesOf(seq)[start+k])
 //@   ensures count: len(featsOf(out)) <= len(featsOf(seq)) && fresh(featsOf(out))
-//@   ensures unchanged(bytesOf(seq)) && unchanged(featsOf(seq))
-//@   loop 1: invariant fresh(ff) && len(ff) <= len(featsOf(seq)) && unchanged(bytesOf(seq)) && unchanged(featsOf(seq))
+//@   assigns heap(Location)
+//@   loop 1: invariant fresh(ff) && len(ff) <= len(featsOf(seq))
 //@   loop 1: decreases len(ff) - i
 
 // Negative indices count from the end; a window with end < start wraps past the end.
@@ -843,7 +845,8 @@ package gts
 //@   requires ite(start < 0, start + len(bytesOf(seq)), start) <= ite(end < 0, end + len(bytesOf(seq)), end)
 //@   ensures !isnil(out) && len(bytesOf(out)) == ite(end < 0, end + len(bytesOf(seq)), end) - ite(start < 0, start + len(bytesOf(seq)), start) && fresh(bytesOf(out))
 //@   ensures window: forall k in 0..len(bytesOf(out)): bytesOf(out)[k] == old(bytesOf(seq)[ite(start < 0, start + len(bytesOf(seq)), start) + k])
-//@   loop 1: invariant fresh(ff) && unchanged(bytesOf(seq))
+//@   assigns heap(Location)
+//@   loop 1: invariant fresh(ff)
 //@   loop 1: decreases len(ff) - i
 
 //@ func Slice@wrap(seq Sequence, start, end int) (out Sequence)
@@ -853,6 +856,7 @@ package gts
 //@   ensures !isnil(out) && len(bytesOf(out)) == len(bytesOf(seq)) - start + end && fresh(bytesOf(out))
 //@   ensures upper: forall k in 0..len(bytesOf(seq))-start: bytesOf(out)[k] == old(bytesOf(seq)[start+k])
 //@   ensures lower: forall k in 0..end: bytesOf(out)[len(bytesOf(seq))-start+k] == old(bytesOf(seq)[k])
+//@   assigns heap(Location)
 //@   loop 1: invariant fresh(ff)
 //@   loop 1: decreases len(ff) - i
 
@@ -879,3 +883,81 @@ package gts
 //@   loop 1: unroll 1
 //@   loop 2: invariant len(ff) == len(featsOf(ss[0])) + idx2 && (fresh(ff) || idx2 == 0)
 //@   loop 2: decreases len(featsOf(seq)) - idx2
+
+// ---------------------------------------------------------------------------
+// Inverse laws (C10) as ghost lemma functions over the contracts above.
+
+// cov2(l, x): coverage of a leaf location or of a join of exactly two leaf locations.
+//@ spec macro cov2(l Location, x int) bool =
+//@   ite(is(l, Joined), len(l.(Joined)) == 2 && (cov(l.(Joined)[0], x) || cov(l.(Joined)[1], x)), cov(l, x))
+
+//@ func (joined Joined) Expand(i, n int) (out Location)
+//@   trusted general case (any number of parts) relies on the general Join; the two-part case is proved as Joined.Expand@two
+//@   ensures !isnil(out)
+//@   assigns nothing
+
+// Deleting [i, i-n) from a join of two ranges: survivors are exactly the images, and two
+// parts that come to abut are merged back into one range with the outer partial markers.
+//@ func (joined Joined) Expand@two(i, n int) (out Location)
+//@   prop C10 C03
+//@   requires len(joined) == 2 && is(joined[0], Ranged) && is(joined[1], Ranged) && n < 0 && 0 <= i && coord(i) && coord(n)
+//@   requires 0 <= joined[0].(Ranged).Start && joined[0].(Ranged).Start < joined[0].(Ranged).End && coord(joined[0].(Ranged).End)
+//@   requires joined[0].(Ranged).End <= joined[1].(Ranged).Start && joined[1].(Ranged).Start < joined[1].(Ranged).End && coord(joined[1].(Ranged).End)
+//@   requires !(i <= joined[0].(Ranged).Start && joined[0].(Ranged).End <= i - n) && !(i <= joined[1].(Ranged).Start && joined[1].(Ranged).End <= i - n)
+//@   ensures cover: forall x: cov2(out, x) <==> (cov(joined[0], ite(x < i, x, x - n)) || cov(joined[1], ite(x < i, x, x - n)))
+//@   ensures remerge: joined[0].(Ranged).End == i && joined[1].(Ranged).Start == i - n ==> is(out, Ranged) &&
+//@      out.(Ranged).Start == joined[0].(Ranged).Start && out.(Ranged).End == joined[1].(Ranged).End + n &&
+//@      out.(Ranged).Partial.Partial5 == joined[0].(Ranged).Partial.Partial5 && out.(Ranged).Partial.Partial3 == joined[1].(Ranged).Partial.Partial3
+//@   assigns nothing
+//@   loop 1: unroll 2
+
+//@ func lemmaRangedShiftExpand(r Ranged, i, n int) (out Location)
+//@   prop C10
+//@   requires coord(2*r.End) && coord(2*i) && coord(2*n) && 0 <= r.Start && r.Start < r.End && 0 <= i && 0 < n
+//@   ensures is(out, Ranged) && out.(Ranged) == r
+
+//@ func lemmaRangedEmbedDelete(r Ranged, i, n int) (out Location)
+//@   prop C10
+//@   requires coord(2*r.End) && coord(2*i) && coord(2*n) && 0 <= r.Start && r.Start < r.End && 0 <= i && 0 < n
+//@   ensures is(out, Ranged) && out.(Ranged) == r
+
+//@ func lemmaPointShiftExpand(p Point, i, n int) (out Location)
+//@   prop C10
+//@   requires coord(2*int(p)) && coord(2*i) && coord(2*n) && 0 <= int(p) && 0 <= i && 0 < n
+//@   ensures is(out, Point) && out.(Point) == p
+
+//@ func lemmaInsertDelete(host Sequence, i int, guest Sequence) (out Sequence)
+//@   prop C10
+//@   requires !isnil(host) && !isnil(guest) && 0 <= i && i <= len(bytesOf(host))
+//@   ensures len(bytesOf(out)) == len(bytesOf(host)) && (forall k in 0..len(bytesOf(host)): bytesOf(out)[k] == old(bytesOf(host)[k]))
+//@   ensures len(featsOf(out)) == len(featsOf(host)) + len(featsOf(guest))
+
+//@ func lemmaEmbedDelete(host Sequence, i int, guest Sequence) (out Sequence)
+//@   prop C10
+//@   requires !isnil(host) && !isnil(guest) && 0 <= i && i <= len(bytesOf(host))
+//@   ensures len(bytesOf(out)) == len(bytesOf(host)) && (forall k in 0..len(bytesOf(host)): bytesOf(out)[k] == old(bytesOf(host)[k]))
+
+//@ func lemmaSliceConcat(seq Sequence, c int) (out Sequence)
+//@   prop C10
+//@   requires !isnil(seq) && 0 <= c && c <= len(bytesOf(seq)) && coord(len(bytesOf(seq)))
+//@   ensures len(bytesOf(out)) == len(bytesOf(seq)) && (forall k in 0..len(bytesOf(seq)): bytesOf(out)[k] == old(bytesOf(seq)[k]))
+
+// Ghost lemma functions (compiled only with the tag verif; never called).
+
+func lemmaRangedShiftExpand(r Ranged, i, n int) Location { return r.Shift(i, n).Expand(i, -n) }
+
+func lemmaRangedEmbedDelete(r Ranged, i, n int) Location { return r.Expand(i, n).Expand(i, -n) }
+
+func lemmaPointShiftExpand(p Point, i, n int) Location { return p.Shift(i, n).Expand(i, -n) }
+
+func lemmaInsertDelete(host Sequence, i int, guest Sequence) Sequence {
+	return Delete(Insert(host, i, guest), i, Len(guest))
+}
+
+func lemmaEmbedDelete(host Sequence, i int, guest Sequence) Sequence {
+	return Delete(Embed(host, i, guest), i, Len(guest))
+}
+
+func lemmaSliceConcat(seq Sequence, c int) Sequence {
+	return Concat(Slice(seq, 0, c), Slice(seq, c, Len(seq)))
+}
